@@ -30,6 +30,7 @@ func slicesDelete(x *Exec, fr *Frame, st *State, c *ssa.CallCommon, args []Value
 	if _, isS := et.Underlying().(*types.Struct); isS {
 		unsupported("slices.Delete on a slice of structs")
 	}
+	x.note("model: slices.Delete (in place: the elements after the gap move down, the cleared tail is unconstrained)")
 	inb := And(BVCmp("bvsle", BVConstU(0, 64), i), BVCmp("bvsle", i, j), BVCmp("bvsle", j, s.Len))
 	x.emitSafe(fr, st, "slice", inb, c.Pos())
 	st.Assume(inb)
